@@ -5,8 +5,9 @@ Correspondence (coq/Corr/FsCorr.v), layer L3: the freshly built shoot binary run
 under strace on generated directory states; the projected syscall trace, the
 directory/inode state before and after, and the content of every pre-existing
 inode (through hard links kept outside the package) are compared with the
-model's operation list and final state inside Coq.  The thorough tier adds runs
-killed with SIGKILL at random instants and concurrent readers."""
+model's operation list and final state inside Coq.  Runs killed with SIGKILL at
+random instants and concurrent readers: a handful in the quick tier, 260 / 12 in
+the thorough tier."""
 import concurrent.futures as cf
 import json
 import os
@@ -374,7 +375,7 @@ def kill_case(run, shoot, mod, idx, rng, traced, fixed=False):
     pkgdir = twin / "p"
     names_before = set(os.listdir(pkgdir))
     how = rng.choice(["uniform", "watch", "watch", "watch"])
-    delay = rng.random() * (t_ref * (12 if traced else 1.3))
+    delay = rng.random() * (t_ref * (4 if traced else 0.95))
     after_watch = rng.choice([0, 0, 0.00005, 0.0002, 0.0005, 0.001, 0.003]) * (4 if traced else 1)
     proc = subprocess.Popen(cmdv, cwd=str(final.cwd(twin)), env=lib.go_env(), stdout=subprocess.DEVNULL,
                             stderr=subprocess.DEVNULL, start_new_session=True)
@@ -633,7 +634,7 @@ def case_plan(run, fixed=False):
         fails = ["missing_type", "missing_file", "bad_flag", "missing_dir"]
         for fail in (fails if run.thorough() else run.rng.sample(fails, 2)):
             plan.append((ci, run.rng.choice(["star", "types"]), run.rng.choice(["pkg", "parent"]), fail))
-    extra = 400 if run.thorough() else 16
+    extra = 400 if run.thorough() else 12
     for _ in range(extra):
         plan.append((run.rng.randrange(4), None, None, None))
     return plan
@@ -713,8 +714,9 @@ def main(run):
         reported += 1
 
     kcases, kmism, readers = [], [], []
-    if run.thorough():
-        nk = 200
+    if True:
+        # about a fifth of the runs finish before the signal: thorough has >= 200 really killed runs
+        nk = 260 if run.thorough() else 8
         kseeds = [run.rng.getrandbits(48) for _ in range(nk)]
 
         def onek(i):
@@ -737,8 +739,9 @@ def main(run):
                 "reference_outputs": [(n, len(b)) for n, b in k["new"]], "reference_removed": k["removed"],
                 "sources": k["sources"], "planted": k["planted"], "links": k["links"],
             }, no_input=(v != 2))
-        rseeds = [run.rng.getrandbits(48) for _ in range(12)]
-        for i in range(12):
+        nr = 12 if run.thorough() else 2
+        rseeds = [run.rng.getrandbits(48) for _ in range(nr)]
+        for i in range(nr):
             readers.append(reader_case(run, shoot, mod, i, random.Random(rseeds[i])))
         for r in readers:
             if r["bad"]:
